@@ -31,6 +31,11 @@ TEXTS = {
     "bad_empty": "",
     "bad_two_defs": A + "\n" + 'def other { splitters: org return "X" weighted 1 }',
 }
+# texts that differ from A but collide with it under weak "has the source changed?" detectors
+from ..enum import collide as _collide  # noqa: E402
+
+TEXTS.update(_collide.twins(A, 'def exp { splitters: uid return "V1" weighted 1, "V2" weighted 1 }', 'def exp { splitters: uid return "S1" weighted }',
+                            'def exp { splitters: uid return "L1" weighted 1 ; }'))
 INPUTS = [
     {"uid": 1, "org": "a", "f": 1, "g": 3},
     {"uid": "1", "org": "b", "f": 0, "g": 0},
@@ -44,9 +49,78 @@ def spec_for(tier):
     return xlife.Spec(TEXTS, INPUTS, slots=3, depth=4)
 
 
+def long_text(i):
+    return f'def exp {{ salt: "L" splitters: uid return "L{i}a" weighted 1, "L{i}b" weighted {1 + i % 5}, "L{i}c" weighted 2 }}'
+
+
+def _long_work(units):
+    """deep linear histories (cumulative effects: caches with eviction, rings, counters): one or two
+    evaluators are recompiled through many distinct texts in cycles of period p; after every step the
+    evaluator is probed and must give exactly the reference result of the text it was last given."""
+    from .. import oracle
+    from ..common import quiet
+    from ..ref import parse as rp
+
+    out = {"cov": {}, "viol": [], "outcomes": [], "samples": [], "known": {}}
+    probes = [{"uid": u} for u in (1, "1", 7, "x", 2.5)]
+    asts = {}
+
+    def expect_ok(ev, i, hist):
+        a = asts.setdefault(i, rp.parse(long_text(i)))
+        for x in probes:
+            got = impl.call(ev, x)
+            why = oracle.agree(got, oracle.expected(a, x))
+            out["cov"]["probes"] = out["cov"].get("probes", 0) + 1
+            if why:
+                out["cov"]["violating_cases"] = out["cov"].get("violating_cases", 0) + 1
+                if len(out["viol"]) < 3:
+                    out["viol"].append({"kind": "life:long", "period": hist[0], "steps": hist[1], "evaluators": hist[2], "text_index": i,
+                                        "why": f"after {hist[1]} recompiles cycling through {hist[0]} texts the evaluator, last given text #{i}, returns {got!r}: {why}"})  # fmt: skip
+                return False
+        return True
+
+    for period, rounds, nev in units:
+        evs = [impl.ExperimentEvaluator(long_text(1000 + k)) for k in range(nev)]
+        steps = 0
+        ok = True
+        for r in range(rounds):
+            for j in range(period):
+                for k, ev in enumerate(evs):
+                    i = (j + 3 * k) % period if nev > 1 else j
+                    with quiet():
+                        ev.recompile(long_text(i))
+                    steps += 1
+                    out["cov"]["transitions"] = out["cov"].get("transitions", 0) + 1
+                    if not expect_ok(ev, i, (period, steps, nev)):
+                        ok = False
+                        break
+                if not ok:
+                    break
+            if not ok:
+                break
+        out["outcomes"].append(f"long:{period}:{nev}:{ok}")
+    return out
+
+
+def long_histories(res, tier):
+    from ..common import pmap
+
+    periods = [1, 2, 3, 5, 8, 9, 15, 16, 17, 31, 32, 33, 63, 64, 65, 100, 127, 128, 129, 130] + ([255, 256, 257, 300, 511, 512, 513] if tier == "thorough" else [])
+    units = [(p, 3, n) for p in periods for n in (1, 2)]
+    for w in pmap(_long_work, units, chunk=1, inline_ok=False):
+        res.merge_worker(w)
+    res.set("long_history_periods", periods)
+
+
+def replay_long(data):
+    r = _long_work([(data["period"], 3, data["evaluators"])])
+    return bool(r["viol"]), (r["viol"][0]["why"] if r["viol"] else "long history behaves like the model")
+
+
 def run(res, tier):
     spec = spec_for(tier)
     xlife.explore(res, spec)
+    long_histories(res, tier)
     res.set("traces_validated_against_impl", res.cov.get("transitions", 0))
     res.set("bounds", {"slots": spec.slots, "depth": spec.depth, "texts": sorted(TEXTS), "inputs": len(spec.inputs), "accepted_by_fresh_constructor": sorted(k for k, v in spec.fresh.items() if v)})
     if res.cov.get("global_state_changed") and not res.cov.get("isolated_mode"):
@@ -55,6 +129,8 @@ def run(res, tier):
 
 
 def replay(data):
+    if data.get("kind") == "life:long":
+        return replay_long(data)
     spec = spec_for("thorough")
     spec.prepare()
     if data.get("kind") == "life:two-fresh-evaluators":
